@@ -337,6 +337,13 @@ def observe_step(ct, net, tree, arrays, want_value=True):
     if want_value:
         try:
             # check_zero: the canonical integer arrays contain zeros, so a slice / intermediate can vanish exactly
+            # first the same call WITHOUT the zero check (its result is meaningless when an intermediate vanishes and is
+            # not used): the options of one call must not leak into the next one through the tree's compiled contractors
+            with np.errstate(all="ignore"):
+                try:
+                    obs.contract(arrays, strip_exponent=True)
+                except Exception:
+                    pass
             m_, e_ = obs.contract(arrays, strip_exponent=True, check_zero=True)
             got_s = np.asarray(m_) * 10.0 ** float(e_)
             nz = np.all(ref != 0)
